@@ -70,6 +70,8 @@ let spec input obs =
   | [pre; crash; red; clean] ->
     let pre = parse_rows (strip "pre:" pre) in
     let (_, crash_rows_s) = split2 '/' (strip "crash:" crash) in
+    if Stdlib.String.length crash_rows_s >= 14 && Stdlib.String.sub crash_rows_s 0 14 = "RESTART-FAILED"
+    then "FAIL restart-refuses-the-crash-image " ^ crash_rows_s else
     let crash_rows = parse_rows crash_rows_s in
     let (red_outs, red_rows_s) = split2 '/' (strip "redeliver:" red) in
     let clean_s = strip "clean:" clean in
